@@ -701,7 +701,7 @@ class Emit:
 BUILTIN = {'__CPROVER_assume', '__CPROVER_assert', 'malloc', 'free', 'memcpy', 'memset', 'memmove', 'strlen', 'memchr', 'memcmp', 'exit',
            'vnd_u64', 'vnd_range', 'vassume', 'vassert_at', 'vwitness_at', 'vobs', 'vll_abort', 'vll_assert_fail', 'vll_printf', 'vll_fprintf', 'vll_puts',
            'vll_cxa_atexit', 'vll_guard_acquire', 'vll_guard_release', 'vll_pure_virtual',
-           'vra_load', 'vra_store', 'vra_rmw', 'vra_cas', 'vra_fence', 'vra_set_thread', 'vra_thread', 'vra_na_read', 'vra_na_write', 'vra_forget', 'vra_stale_reads'}
+           'vra_load', 'vra_store', 'vra_rmw', 'vra_cas', 'vra_fence', 'vra_set_thread', 'vra_thread', 'vra_na_read', 'vra_na_write', 'vra_forget', 'vra_register', 'vra_stale_reads'}
 
 if __name__ == '__main__':
     src, out = sys.argv[1], sys.argv[2]
